@@ -390,6 +390,16 @@ def r16_5(run):
                 none_leg = v.body if member_true else v.orelse
                 okd = okd or is_none(none_leg)
     run.ob('R16.5', cr, cr.node, 'a nickname seen twice in the document resolves to nothing', okd, slot='dup-nick', message='duplicate nicknames are not blanked')
+    # ... for every bearer of it: a relay is filed under its nickname only where "not yet in the index" is established (no further
+    # condition - flags, listing order - lets one bearer of a shared nickname keep it)
+    for n in stores:
+        if is_none(n.value) or isinstance(n.value, ast.IfExp) or not src(n.targets[0].slice).endswith('.name'):
+            continue
+        for cn in g.nodes_containing(n):
+            okn = established(g, cn, 'member', lambda t: dotted(t.comparators[0]) == 'self.routers', positive=False)
+            run.ob('R16.5', cr, n, 'a relay is filed under its nickname only if no other relay of the document has it', okn, slot='nick-only-if-new',
+                   message='_create_router files a relay under its nickname on a path where "nickname not yet in the index" is not established: with a shared nickname the '
+                           'lookup then resolves to one of its bearers instead of to nothing')
     idst = [n for n in g.real_nodes() if n.kind == 'stmt' and n.ast in stores and not src(n.ast.targets[0].slice).endswith('.name') and not is_none(n.ast.value)]
     ok = bool(idst) and any(_unconditional(g, n) for n in idst)
     run.ob('R16.5', cr, cr.node, 'lookup by identity is stored unconditionally', ok, slot='id-always', message='identity key not stored on every path')
@@ -514,6 +524,13 @@ def r16_9(run):
     borrow(run, c02.r02_1, 'R16.9')
 
 
+def r16_11(run):
+    """lookup by identity always works: router_from_id files and finds relays under the 41-character "$fingerprint" prefix of
+    whatever spelling it is given ($FP, $FP~nick, $FP=nick) - rule R07.4, shared"""
+    from . import c07
+    borrow(run, c07.r07_4, 'R16.11')
+
+
 RULES = [
     ('R16.6', 'no dropped Deferred in TorState._bootstrap (ns/all is loaded before the state is declared ready)', r16_6),
     ('R16.9', 'the NEWCONSENSUS event text is dispatched uncut (R02.1 borrowed): an empty replacement document still replaces the view', r16_9),
@@ -522,6 +539,7 @@ RULES = [
     ('R16.3', 'FSM table x line classes against dir-spec 3.4.1 order r a* s [w] [p] (first-match, matcher ASTs interpreted on class representatives)', r16_3),
     ('R16.8', 'line handlers take data.split()[1:]; ambiguous nicknames deleted after the document', r16_8),
     ('R16.10', 'contradiction rule: the nickname index may hold None placeholders (one walk tests for it); every walk over it or an alias dereferences entries only after a None test', r16_10),
+    ('R16.11', 'router_from_id keys relays by the $fingerprint prefix for every spelling of a router id (R07.4 borrowed)', r16_11),
     ('R16.4', 'identity codec pair composed of mutually inverse primitives', r16_4),
     ('R16.5', 'guards/authorities keyed on the lower-cased flags; nickname index blanks duplicates; identity always indexed', r16_5),
 ]
